@@ -939,9 +939,16 @@ func main() {
 	g := &G{r: gen.FromEnv(12)}
 	id := 0
 	emit := func(c Case) {
+		if stuck != nil {
+			c = *stuck
+		}
 		c.ID = id
 		id++
 		gen.Emit(c)
+		if timedOut {
+			gen.Emit(J{"done": true, "cases": id, "stopped": "codec timeout"})
+			os.Exit(0)
+		}
 	}
 	textCase := func(src string) {
 		c := Case{Kind: "text", Src: runes(src), SrcText: src}
